@@ -79,6 +79,29 @@ def rpc(case, res):
                     b.note("batch", c.name, msgs)
                     S.batch(c, msgs, chunks=pick_chunks(rng), hostile=True)
                     S.sig("batch", min(len(msgs), 3))
+                elif r < 0.5 and r >= 0.47 and c.alive() and not c.pending:
+                    # a batch whose LAST element is no request object at all, behind requests that are fine: "processed in order as
+                    # if sent one by one" - the requests in front are carried out and answered before the malformed element costs
+                    # the connection (if it does)
+                    self_settle = b.settle
+                    self_settle()
+                    if not c.alive() or c.pending:
+                        continue
+                    S.idc += 2
+                    good = [{"id": S.idc - 1, "method": "info"}, {"id": "b%d" % S.idc, "method": rng.choice(["nosuch", "info", "get"]), "params": {}}]
+                    bad = rng.choice([42, "x", None, [1], True, 1.5])
+                    ps = [S._register(c, dict(m), True) for m in good]
+                    c.may_close = True
+                    b.note("batch-ending-in-a-non-object", c.name, bad)
+                    if c.track_input:
+                        c.sent_payloads.append(json.dumps(good + [bad]).encode())
+                    S.send_bytes(c, S.frame_for(c, json.dumps(good + [bad]).encode()), pick_chunks(rng))
+                    self_settle()
+                    S.sig("batch-ending-in-a-non-object", type(bad).__name__, c.closed)
+                    S.stats["batches_ending_in_a_non_object"] += 1
+                    if any(p.state == "sent" for p in ps):
+                        S.v("rpc/batch-elements-in-front-of-a-malformed-one-not-answered", "%d of %d on %s (%s), last element %r, connection %s" %
+                            (sum(p.state == "sent" for p in ps), len(ps), c.name, c.transport, bad, "closed" if c.closed else "open"))
                 elif r < 0.53 and r >= 0.5:
                     # a rule object with repeated member names (legal JSON): more matchers than the daemon accepts, or just many
                     names = [rng.choice(["equals", "equalsNot", "startsWith", "endsWith", "contains", "containsAllOf"]) for _ in range(rng.choice([7, 12, 13, 14, 20]))]
